@@ -4,7 +4,7 @@
    collector, which is overwritten by the next first Add before anything reads it. *)
 From Coq Require Import ZArith NArith List Bool Lia Arith.
 From FV.Model Require Import Bytes Bson Metrics Codec Collector Wf RoundTrip CollectorOk.
-From FV.Proofs Require Import CodecChunk CodecProofs CollectorHyps CollectorBase CollectorKinds CollectorInv CollectorLog.
+From FV.Proofs Require Import CodecChunk CodecProofs CollectorBase CollectorKinds CollectorInv CollectorLog.
 Import ListNotations.
 Open Scope Z_scope.
 
@@ -189,7 +189,7 @@ Proof.
   { intros c1 e1 w1 (Hh1 & Hm1 & Hs1). destruct (ssim_add (sd_s c1) (sd_s e1) w1 d now Hs1) as (Ha & Hb & Hc).
     destruct (sc_add deflate (sd_s c1) w1 d now) as [[s1 w2] r1].
     destruct (sc_add deflate (sd_s e1) w1 d now) as [[s2 w3] r2]. cbn [fst snd] in *.
-    repeat split; cbn [fst snd sd_hash sd_mcount sd_s]; assumption. }
+    split; [split; [exact Hh1|split; [exact Hm1|exact Ha]]|split; assumption]. }
   destruct (sd_changed c d).
   - assert (Hcnt : sc_count (sd_s c) = sc_count (sd_s e)) by apply Hs. rewrite <- Hcnt.
     destruct (0 <? sc_count (sd_s c)).
@@ -237,31 +237,31 @@ Proof.
 Qed.
 
 Lemma rel3_refl : forall (B : Type) (x : coll * writer * B), rel3 csim x x.
-Proof. intros B x. repeat split. apply csim_refl. Qed.
+Proof. intros B x. split; [apply csim_refl|split; reflexivity]. Qed.
 
 Lemma csim_add : forall c e w d now, csim c e -> rel3 csim (c_add deflate c w d now) (c_add deflate e w d now).
 Proof.
   intros [a|a|a|a|a|a] [b|b|b|b|b|b] w d now H; cbn [csim] in H; try (rewrite H; apply rel3_refl); cbn [c_add].
   - destruct (bsim_add a b d now H) as [H1 H2].
     destruct (bc_add a d now) as [a' r1]. destruct (bc_add b d now) as [b' r2]. cbn [fst snd] in *. subst r2.
-    repeat split. exact H1.
+    split; [exact H1|split; reflexivity].
   - destruct (ssim_add a b w d now H) as (H1 & H2 & H3).
     destruct (sc_add deflate a w d now) as [[s1 w1] r1]. destruct (sc_add deflate b w d now) as [[s2 w2] r2].
-    cbn [fst snd] in *. repeat split; assumption.
+    cbn [fst snd] in *. split; [exact H1|split; assumption].
   - destruct (dsim_add a b w d now H) as (H1 & H2 & H3).
     destruct (sd_add deflate a w d now) as [[s1 w1] r1]. destruct (sd_add deflate b w d now) as [[s2 w2] r2].
-    cbn [fst snd] in *. repeat split; assumption.
+    cbn [fst snd] in *. split; [exact H1|split; assumption].
 Qed.
 
 Lemma csim_add_bad : forall c e w, csim c e -> rel3 csim (c_add_bad deflate c w) (c_add_bad deflate e w).
 Proof.
   intros [a|a|a|a|a|a] [b|b|b|b|b|b] w H; cbn [csim] in H; try (rewrite H; apply rel3_refl); cbn [c_add_bad].
-  - repeat split. exact H.
+  - split; [exact H|split; reflexivity].
   - destruct (ssim_cap_flush a b w H) as (H1 & H2 & H3).
     destruct (if sc_max a <=? sc_count a then sc_flush deflate a w else (a, w, true)) as [[s1 w1] ok1].
     destruct (if sc_max b <=? sc_count b then sc_flush deflate b w else (b, w, true)) as [[t1 w2] ok2].
-    cbn [fst snd] in *. subst w2 ok2. repeat split. exact H1.
-  - repeat split. exact H.
+    cbn [fst snd] in *. subst w2 ok2. split; [exact H1|split; reflexivity].
+  - split; [exact H|split; reflexivity].
 Qed.
 
 Lemma csim_flush : forall c e w, csim c e -> rel3 csim (c_flush deflate c w) (c_flush deflate e w).
@@ -278,17 +278,17 @@ Proof.
   intros c e w o H. destruct o as [d now| | | | |m|]; cbn [step].
   - destruct (csim_add c e w d now H) as (H1 & H2 & H3).
     destruct (c_add deflate c w d now) as [[c' w1] r1]. destruct (c_add deflate e w d now) as [[e' w2] r2].
-    cbn [fst snd] in *. subst w2 r2. repeat split. exact H1.
+    cbn [fst snd] in *. subst w2 r2. split; [exact H1|split; reflexivity].
   - destruct (csim_add_bad c e w H) as (H1 & H2 & H3).
     destruct (c_add_bad deflate c w) as [[c' w1] r1]. destruct (c_add_bad deflate e w) as [[e' w2] r2].
-    cbn [fst snd] in *. subst w2 r2. repeat split. exact H1.
-  - rewrite (csim_resolve c e H). repeat split. exact H.
-  - repeat split. apply csim_reset. exact H.
+    cbn [fst snd] in *. subst w2 r2. split; [exact H1|split; reflexivity].
+  - rewrite (csim_resolve c e H). split; [exact H|split; reflexivity].
+  - split; [apply csim_reset; exact H|split; reflexivity].
   - destruct (csim_flush c e w H) as (H1 & H2 & H3).
     destruct (c_flush deflate c w) as [[c' w1] r1]. destruct (c_flush deflate e w) as [[e' w2] r2].
-    cbn [fst snd] in *. subst w2 r2. repeat split. exact H1.
-  - repeat split. apply csim_set_meta. exact H.
-  - rewrite (csim_info c e H). destruct (c_info e) as [mi si]. repeat split. exact H.
+    cbn [fst snd] in *. subst w2 r2. split; [exact H1|split; reflexivity].
+  - split; [apply csim_set_meta; exact H|split; reflexivity].
+  - rewrite (csim_info c e H). destruct (c_info e) as [mi si]. split; [exact H|split; reflexivity].
 Qed.
 
 Lemma csim_run : forall ops c e w, csim c e ->
@@ -302,21 +302,6 @@ Proof.
   destruct (run deflate (c1, w1) ops) as [st1 bs1]. destruct (run deflate (e1, w1) ops) as [st2 bs2].
   cbn [fst snd] in *. split; [congruence|exact Hb].
 Qed.
-
-(* the metadata a Reset keeps, and the fresh collector carrying it *)
-Definition meta_kept (c : coll) : option doc :=
-  match c with
-  | CBase b => bc_meta b
-  | CStream s => match sc_inner s with IB b => bc_meta b | IU u => uc_meta u end
-  | CSDyn x => match sc_inner (sd_s x) with IB b => bc_meta b | IU u => uc_meta u end
-  | _ => None
-  end.
-
-Definition fresh_like (k : kind) (n : Z) (c : coll) : coll :=
-  match k with
-  | KBatch | KDyn => new_coll k n
-  | _ => c_set_meta (new_coll k n) (meta_kept c)
-  end.
 
 Lemma reset_csim_fresh : forall D k n c gsp, compressing k = true -> holds D k n c gsp ->
   csim (c_reset c) (fresh_like k n c).
@@ -341,15 +326,15 @@ Proof.
 Qed.
 
 Theorem c07_reset_fresh : forall k n ops ops', compressing k = true -> 1 <= n -> ops_ok k ops ->
-  let c := fst (reach deflate k n ops) in
-  let w := snd (reach deflate k n ops) in
+  let c := fst (c07_reach deflate k n ops) in
+  let w := snd (c07_reach deflate k n ops) in
   let r1 := run deflate (c_reset c, w) ops' in
   let r2 := run deflate (fresh_like k n c, w) ops' in
   snd r1 = snd r2 /\ snd (fst r1) = snd (fst r2).
 Proof.
   intros k n ops ops' Hk Hn Hok c w r1 r2. subst r1 r2.
   destruct (reach_inv deflate k n ops ops Hk Hn Hok (fun o H => H)) as (gsw & gsp & (_ & _ & Hc)).
-  apply csim_run. apply (reset_csim_fresh (added ops) k n c gsp Hk Hc).
+  apply csim_run. apply (reset_csim_fresh (ops_added ops) k n c gsp Hk Hc).
 Qed.
 
 End Fresh.
